@@ -23,7 +23,12 @@ func (s ExploreRecursiveEdge) Interests() []datamodel.PathSegment {
 
 // Explore should ultimately never get called for an ExploreRecursiveEdge selector
 func (s ExploreRecursiveEdge) Explore(n datamodel.Node, p datamodel.PathSegment) (Selector, error) {
-	panic("Traversed Explore Recursive Edge Node With No Parent")
+	// An edge is replaced by its recursion's sequence when exploration steps onto it
+	// (see ExploreRecursive.Explore). Being asked to explore from an edge means the
+	// edge sits at the very start of a sequence (for example as a member of a union
+	// that is the whole sequence), where there is no step to recurse on: such an edge
+	// selects nothing. Selector documents are untrusted input, so this must not panic.
+	return nil, nil
 }
 
 // Decide should almost never get called for an ExploreRecursiveEdge selector
